@@ -333,10 +333,13 @@ func runScenario(seed int64, sc *scenario) ([]tr.Ev, []string) {
 			}
 			var resp requestf.ResponsePacket
 			t0 := time.Now()
-			err := sp.TarsInvoke(ctx, 0, "echo", payload, nil, nil, &resp)
+			err := guardedInvoke(sp, ctx, payload, &resp) // sp.TarsInvoke (faultfilter.go)
 			ms := int(time.Since(t0) / time.Millisecond)
 			k, pq, rid, tag, cls := "reply", 0, 0, 0, ""
+			fk, fa := fltVerdict(sc, c, err) // "filtered": the caller holds the outcome of a client filter that is not transparent
 			switch {
+			case fk != "":
+				k = fk
 			case err == nil:
 				tag, pq = decodeTag(resp.SBuffer)
 				rid, _ = mapID(resp.IRequestId)
@@ -348,7 +351,7 @@ func runScenario(seed int64, sc *scenario) ([]tr.Ev, []string) {
 				k = "senderr"
 				cls = errClass(err)
 			}
-			rec.emit("CallEnd", "c", c, "k", k, "p", pq, "rid", rid, "tag", tag, "ms", ms, "err", cls)
+			rec.emit("CallEnd", "c", c, "k", k, "p", pq, "rid", rid, "tag", tag, "ms", ms, "err", cls, "fa", fa)
 		}
 		go doCall(c)
 		if sc.Stagger > 0 {
